@@ -262,10 +262,23 @@ class World(object):
                 self.sim.at(f["t"], cl.shrink_topic, f["topic"])
             elif act == "hide_broker":
                 self.sim.at(f["t"], cl.hide_broker, f["node"])
+            elif act == "retire_broker":
+                self.sim.at(f["t"], self._retire_broker, f["node"])
             else:
                 raise HarnessError("unknown timed fault %r" % (act,))
 
+    def _retire_broker(self, node):
+        """The broker leaves the cluster for good (leaders and coordinators move first): not a fault that heals."""
+        cl = self.cluster
+        if len(cl.alive()) < 2 or not cl.brokers[node].up:
+            return
+        self.net.fault("broker_retired")
+        cl.broker_down(node, True)
+        cl.brokers[node].retired = True
+
     def _move_coordinator(self, group, to):
+        if getattr(self.cluster.brokers.get(to), "retired", False):
+            return  # a broker that left the cluster is given no groups
         self.net.fault("coordinator_move")
         self.cluster.coordinator_of[group] = to
 
@@ -299,7 +312,7 @@ class World(object):
         """End of the fault phase: brokers up, metadata truthful, rules disarmed."""
         cl = self.cluster
         for b in cl.brokers.values():
-            if not b.up:
+            if not b.up and not getattr(b, "retired", False):
                 cl.broker_up(b.node)
             b.frozen_meta = None
             b.hidden = False
